@@ -4,7 +4,6 @@
 package config
 
 import (
-	"bytes"
 	"context"
 	"fmt"
 	"io"
@@ -23,7 +22,10 @@ import (
 
 type (
 	configFiles struct {
-		byPath map[string]io.Reader
+		// byPath holds the content of every watched file. The content is kept
+		// (not the one-shot reader of the change event) because every change
+		// re-parses all files.
+		byPath map[string][]byte
 		sync.Mutex
 	}
 
@@ -49,7 +51,7 @@ func newOPLConfigWatcher(ctx context.Context, c *Config, target string) (*oplCon
 	nw := &oplConfigWatcher{
 		logger:                 c.l,
 		target:                 target,
-		files:                  configFiles{byPath: make(map[string]io.Reader)},
+		files:                  configFiles{byPath: make(map[string][]byte)},
 		memoryNamespaceManager: *NewMemoryNamespaceManager(),
 	}
 
@@ -66,21 +68,20 @@ func newOPLConfigWatcher(ctx context.Context, c *Config, target string) (*oplCon
 		if err != nil {
 			return nil, err
 		}
-		nw.files.byPath[targetUrl.String()] = file
+		nw.files.byPath[targetUrl.String()] = file.Bytes()
 		nw.parseFiles()
 		return nw, err
 	case "http", "https":
-		var file io.Reader
+		var file []byte
 		if item, ok := cache.Get(target); ok {
-			file = bytes.NewReader(item)
+			file = item
 		} else {
 			buf, err := c.Fetcher().FetchContext(ctx, target)
 			if err != nil {
 				return nil, err
 			}
-			b := buf.Bytes()
-			cache.SetWithTTL(target, b, int64(cap(b)), 30*time.Minute)
-			file = bytes.NewReader(b)
+			file = buf.Bytes()
+			cache.SetWithTTL(target, file, int64(cap(file)), 30*time.Minute)
 		}
 		nw.files.byPath[targetUrl.String()] = file
 		nw.parseFiles()
@@ -95,8 +96,25 @@ func (nw *oplConfigWatcher) handleChange(e *watcherx.ChangeEvent) {
 	// waiting for the updated values
 	nw.files.Lock()
 	defer nw.files.Unlock()
-	nw.files.byPath[e.Source()] = e.Reader()
-	nw.parseFiles()
+	content, err := io.ReadAll(e.Reader())
+	if err != nil {
+		nw.logger.
+			WithError(err).
+			Errorf("Failed to read OPL config file %s at target %s.",
+				e.Source(), nw.target)
+		return
+	}
+	previous, existed := nw.files.byPath[e.Source()]
+	nw.files.byPath[e.Source()] = content
+	if !nw.parseFiles() {
+		// keep the last valid version of this file, so that it does not block
+		// later changes to the other files
+		if existed {
+			nw.files.byPath[e.Source()] = previous
+		} else {
+			delete(nw.files.byPath, e.Source())
+		}
+	}
 }
 
 func (nw *oplConfigWatcher) handleRemove(e *watcherx.RemoveEvent) {
@@ -114,20 +132,16 @@ func (nw *oplConfigWatcher) handleError(e *watcherx.ErrorEvent) {
 }
 
 // parseFiles loops through all files, parsing each and getting the namespaces.
-// It then sets the namespaces only if there were no errors.
+// It then sets the namespaces only if there were no errors, and reports
+// whether it did.
 //
 // The caller must  hold the lock to nw.files.
-func (nw *oplConfigWatcher) parseFiles() {
+func (nw *oplConfigWatcher) parseFiles() bool {
 	var (
 		namespaces = make([]*namespace.Namespace, 0)
 		errs       []error
 	)
-	for _, reader := range nw.files.byPath {
-		content, err := io.ReadAll(reader)
-		if err != nil {
-			errs = append(errs, err)
-			continue
-		}
+	for _, content := range nw.files.byPath {
 		nn, ee := schema.Parse(string(content))
 		for _, e := range ee {
 			errs = append(errs, e)
@@ -144,7 +158,8 @@ func (nw *oplConfigWatcher) parseFiles() {
 				Errorf("Failed to parse OPL config files at target %s.",
 					nw.target)
 		}
-		return
+		return false
 	}
 	nw.set(namespaces)
+	return true
 }
